@@ -24,7 +24,7 @@ import uuid
 
 import numpy as np
 
-from ..data import Data, DataType, FloatData, NumericData
+from ..data import Data, DataType, FloatData, NumericData, TextData
 from ..groups import PropertyGroup
 from ..shared.utils import box_intersect, mask_by_extent, merge_arrays
 from .object_base import ObjectType
@@ -751,6 +751,16 @@ class Drillhole(Points):
                         and getattr(child.association, "name", None) == "VERTEX"
                     ):
                         child.values = child.format_values(child.values)[sort_ind]
+                    elif (
+                        isinstance(child, TextData)
+                        and getattr(child.association, "name", None) == "VERTEX"
+                        and child.values is not None
+                    ):
+                        # text logs follow their depths too (vertices without text are empty)
+                        texts = np.atleast_1d(child.values)
+                        if len(texts) < len(sort_ind):
+                            texts = np.r_[texts, [""] * (len(sort_ind) - len(texts))]
+                        child.values = texts[sort_ind]
 
                 if self.vertices is not None:
                     self.vertices = self.vertices[sort_ind, :]
